@@ -20,7 +20,7 @@ RULE = ("session scripts of 2-3 concurrent connections (handshake, enableBLOB Ne
         "peer must start from default settings. non-trivial = every (script, fault, position, transport mix); distinct = hash of it")
 ASSUMPTIONS = ["the handler-exception fault is raised by a failpoint device (a driver now contains its own errors, C12)",
                "a write error on the peer is followed by a reset of its read side, as on a real socket"]
-REQUIRED_EVENTS = ["sessions", "faults_injected", "ended_connections_checked", "survivor_traffic_checks", "reconnects_checked",
+REQUIRED_EVENTS = ["sessions_with_the_tty_server_object", "tty_server_objects_started_again", "sessions", "faults_injected", "ended_connections_checked", "survivor_traffic_checks", "reconnects_checked",
                    "tcp_faults", "tty_faults", "faults_with_a_send_parked_on_a_stalled_peer", "faults_while_a_survivor_has_a_backlog"]
 EXHAUSTIVE_NOTE = "every fault kind at every step index of every script, for each transport mix of the tier"
 
@@ -77,14 +77,32 @@ class Stdout:
 
 
 class Conn:
-    def __init__(self, kind, router, sess, name):
+    def __init__(self, kind, router, sess, name, via_server_object=False, again=None):
         self.kind, self.router, self.sess, self.name = kind, router, sess, name
         self.calls_after_end = 0
         self.ended = False
+        self.out_mark = 0
+        self.server = None
         if kind == "tcp":
             self.link = sess.new_link(name)
             self.task = self.link.server_task
             self.handler = None
+        elif via_server_object or (again is not None and again.server is not None):
+            # the application's way: one indi.transport.server.tty.TTY object on the process's stdin / stdout, its start() awaited -
+            # and awaited AGAIN when the session has ended (`while True: await server.start()`)
+            from indi.transport.server.tty import TTY
+            if again is not None:
+                self.stdin, self.stdout, self.server = again.stdin, again.stdout, again.server
+                while not self.stdin.q.empty():
+                    self.stdin.q.get_nowait()
+                self.stdout.fail = None
+                self.out_mark = len(self.stdout.chunks)
+            else:
+                self.stdin, self.stdout = Stdin(), Stdout()
+                self.server = TTY(router, self.stdin, self.stdout)
+            self._clients_before = list(router.clients)
+            self.handler = None
+            self.task = asyncio.get_running_loop().create_task(self.server.start())
         else:
             from indi.transport.server.tty import ConnectionHandler
             self.stdin, self.stdout = Stdin(), Stdout()
@@ -108,6 +126,12 @@ class Conn:
             self.handler = self.sess.server_conn_of(self.link)
             if self.handler is not None:
                 self._wrap()
+        if self.kind == "tty" and self.handler is None:
+            from indi.transport.server.tty import ConnectionHandler
+            fresh = [c for c in self.router.clients if isinstance(c, ConnectionHandler) and not any(c is b for b in self._clients_before)]
+            if fresh:
+                self.handler = fresh[-1]
+                self._wrap()
 
     async def send(self, text):
         if self.kind == "tcp":
@@ -119,7 +143,7 @@ class Conn:
     def output(self):
         if self.kind == "tcp":
             return self.link.s_writer.data.decode("latin1")
-        return "".join(self.stdout.chunks)
+        return "".join(self.stdout.chunks[self.out_mark:])
 
     async def fault(self, kind):
         half = '<newTextVector device="DEV" name="TXT"><oneText name="TXT_E">hal'
@@ -194,7 +218,10 @@ async def session(ctx, case):
     router.register_device(Boom())
     sess = stack.Session(router)
     del TcpConn.connections[:]
-    conns = [Conn(mix[i], router, sess, f"c{i}") for i in range(nconn)]
+    via_object = case["pos"] % 2 == 0          # TTY connections through the public TTY server object, or the handler class directly
+    conns = [Conn(mix[i], router, sess, f"c{i}", via_server_object=via_object) for i in range(nconn)]
+    if via_object and "tty" in mix:
+        ctx.count("sessions_with_the_tty_server_object")
     await sess.quiesce()
     for c in conns:
         c.resolve()
@@ -325,9 +352,16 @@ async def session(ctx, case):
             if not survivors_ok(f"after {fault} at step {idx}"):
                 return
             # the peer reconnects: default settings
-            rc = Conn(c.kind, router, sess, f"c{victim}r")
+            rc = Conn(c.kind, router, sess, f"c{victim}r", again=c if c.kind == "tty" else None)
             await sess.quiesce()
             rc.resolve()
+            if rc.handler is None and rc.server is not None:
+                ctx.violate(f"reconnected-peer-is-not-registered-with-the-router:{c.kind}",
+                            f"after {fault} at step {idx} the {c.kind} peer came back ({'the same TTY server object started again' if rc.server is not None else 'a new connection'}) "
+                            f"and the router has no client for it", case)
+                return
+            if rc.server is not None:
+                ctx.count("tty_server_objects_started_again")
             conns.append(rc)
             reconnected = len(conns) - 1
             policy[reconnected] = "Never"
